@@ -19,7 +19,7 @@ WRITABLE = set('bBdDCVsSgG')
 def nm_check(cs, workdir):
     fp = cs.ir['prefix']['file']
     d = os.path.dirname(cs.exe)
-    rc, log = common.cc(['gcc', '-c', '-O1', f'{fp}.c', '-o', 'tracer.o'], cwd=d)
+    rc, log = common.cc(['gcc', '-c', '-O0', f'{fp}.c', '-o', 'tracer.o'], cwd=d)
     if rc != 0:
         return [f'generated source does not compile: {log[:200]}'], []
     out = subprocess.run(['nm', 'tracer.o'], cwd=d, capture_output=True, text=True).stdout
